@@ -472,7 +472,7 @@ def gen(ctx):
                             case['stop_dur'] = 1.0
                         yield case, True
     rng = ctx.rng('random')
-    nrand = 300 if quick else 6000
+    nrand = 300 if quick else 60000
     for i in range(nrand):
         n = rng.randint(2, 4)
         times = sorted(rng.choice(GRID6 + [0.25, 1.0, 3.0]) for _ in range(n))
